@@ -19,7 +19,9 @@ META = dict(
               "numpy error state, warning filters) equals its import-time snapshot, any API call of the pool - the "
               "symbolic harnesses of C01 (5 wavefunction formats), C02 (7 formats), C03 (12 readers), C08 (failing "
               "dumps), C13 (dump_many/load_many), C19 (write_input), on every explored path - leaves that state unchanged; "
-              "histories A;B;A for pairs of the pool: the two runs of A write token-identical files",
+              "histories A;B;A for pairs of the pool: the two runs of A write token-identical files; histories A;B;A "
+              "of loading calls for 10 formats: A = a fixture cut at any of its first 40 line boundaries (mostly failing "
+              "calls), B = the complete fixture of the same / of another format: same outcome kind, same message, same objects",
         thorough="all ordered pairs of the pool for A;B;A"),
     outside=["thread interleavings (2..16 threads): no engine here models CPython thread scheduling; "
              "warnings.catch_warnings used by the API is documented as not thread-safe",
@@ -191,7 +193,7 @@ def h_aba(ctx, a=None, b=None):
     fb, pb = _call(*b)
     cache = {}
     ra = _Record(ctx, cache)
-    fa(ra, **pa)
+    r1 = fa(ra, **pa)
     t1 = _memfs_texts(ctx)
     try:
         fb(_Quiet(ctx, {}, prefix="B_"), **{k: v for k, v in pb.items()})
@@ -199,8 +201,16 @@ def h_aba(ctx, a=None, b=None):
         raise
     if ctx.mode == "sym":
         ctx.scratch["memfs"] = {}
-    fa(_Replay(ctx, cache, ra._made), **pa)
+    r2 = fa(_Replay(ctx, cache, ra._made), **pa)
     t2 = _memfs_texts(ctx)
+    if isinstance(r1, dict) and isinstance(r2, dict) and "out" in r1:
+        # a loading call: same kind of outcome, same message, same objects (as terms)
+        tag = f"{a[1]}:{pa.get('fmt', '')}|{b[1]}:{pb.get('fmt', '')}"
+        ctx.oblige("second-run-has-the-same-outcome", r1["out"] == r2["out"] and r1["msg"] == r2["msg"] and len(r1["objs"]) == len(r2["objs"]),
+                   cls=tag, detail=f"{r1['out']}: {r1['msg']} | then {r2['out']}: {r2['msg']}")
+        for o1, o2 in zip(r1["objs"], r2["objs"]):
+            for where, f in rt._value_equal(ctx, rt.snapshot(ctx, o1), rt.snapshot(ctx, o2), "obj"):
+                ctx.oblige("second-run-returns-the-same-object", f, cls=f"{tag}:{where[:50]}")
     keys = sorted(set(t1) & set(t2))
     ok_all = True
     for k in keys:
@@ -251,6 +261,18 @@ def jobs(tier):
     out.append(job("C16", "invariant[twin]", M, "h_invariant",
                    dict(module="harness.c19", fn="h_write_input", params=dict(program="orca", natom=1), twin=True), expect="cex",
                    max_validate=0, max_paths=4))
+    # A;B;A for loading calls, incl. failing ones: a cut file (A) around a complete file of the same and of another format (B)
+    loads = [("wfx", "h2_ub3lyp_ccpvtz.wfx"), ("wfn", "he_s_orbital.wfn"), ("fchk", "h_sto3g.fchk"), ("xyz", "water_element.xyz"),
+             ("pdb", "water_single.pdb"), ("mwfn", "ch3_rohf_sto3g_g03_fchk_multiwfn3.7.mwfn"), ("molekel", "h2_sto3g.mkl"),
+             ("json_qcschema", "water_full.json"), ("gaussianinput", "water.com"), ("sdf", "example.sdf")]
+    for i, (fmt, fn) in enumerate(loads):
+        a = ("harness.c07", "h_parser", dict(fmt=fmt, fn=fn, fault="truncate", max_lines=40))
+        same = ("harness.c07", "h_parser", dict(fmt=fmt, fn=fn, fault="none", max_lines=100000))
+        ofmt, ofn = loads[(i + 3) % len(loads)]
+        other = ("harness.c07", "h_parser", dict(fmt=ofmt, fn=ofn, fault="none", max_lines=100000))
+        for b, tag in ((same, "same-format"), (other, "other-format")):
+            out.append(job("C16", f"A;B;A-load[{fmt}|{tag}]", M, "h_aba", dict(a=list(a), b=list(b)), budget_s=300, max_validate=2,
+                           max_paths=120))
     # A;B;A: writers (A) against every other call (B)
     writers = [x for x in pool if x[1] in ("h_roundtrip", "h_convert", "h_write_input")]
     pairs = []
